@@ -734,6 +734,9 @@ def run(repo, rep):
              'function with **kwargs have names no expression can write')
     rep.rule('R12f', 'CLONE-COPIES-PARAMETERS: the per-context keyword names '
              'are written into parameter objects the clone owns')
+    rep.rule('R12h', 'ABSENCE-IS-NOT-NULL: argument mapping decides '
+             'whether a keyword was passed by membership, never by '
+             'comparing a looked-up value with None (null is a value)')
     rep.rule('R12g', 'CALL-KWARGS-VERBATIM: call() forwards the keys of its '
              'kwargs mapping unchanged')
     rep.rule('R12d', 'EMPTY-SLOTS: on the generated LALR tables, every '
@@ -757,6 +760,15 @@ def run(repo, rep):
     check_varkw_collisions(repo, rep, uni)
     check_clone_copies_parameters(repo, rep)
     check_call_kwargs_verbatim(repo, rep)
+    # a keyword whose value is null is still a keyword that was passed
+    from sa.rules import c13
+    scope = [f for f in repo.all_functions()
+             if f.module.name in ('yaql.language.specs',
+                                  'yaql.language.runner')]
+    c13.check_absence_is_not_null(repo, rep, uni, scope, 'R12h', True,
+                                  sentinels=False)
+    rep.ob('R12h', 'argument-mapping', True, '%d functions of specs / '
+           'runner scanned' % len(scope), nontrivial=True)
     n4 = check_empty_slots(repo, rep,
                            bound=10 if rep.tier == 'thorough' else 7)
     from sa.rules import c11
